@@ -2,7 +2,7 @@
 
 // ---- the epsilon-NFA (closures folded into `reach`): where the automaton can stand right after the last character of w
 pub open spec fn g_step(g: Gr, cls: ClsF, a: int, c: char, t: int) -> bool {
-    exists|cc: CharClassID, tg: StateID| #[trigger] fires(g, a, cc, tg) && cls(cc, c) && tg.0 == t
+    exists|cc: CharClassID, tg: StateID| #[trigger] g_fires(g, a, cc, tg) && cls(cc, c) && tg.0 == t
 }
 pub open spec fn g_lands(g: Gr, cls: ClsF, w: Seq<char>, t: int) -> bool
     decreases w.len()
@@ -15,10 +15,10 @@ pub open spec fn g_acc(g: Gr, cls: ClsF, w: Seq<char>, tok: usize) -> bool {
 }
 
 pub proof fn lemma_fires_same(g: Gr, a: int, b: int, cc: CharClassID, tg: StateID)
-    requires same_closure(g, a, b), fires(g, a, cc, tg)
-    ensures fires(g, b, cc, tg)
+    requires same_closure(g, a, b), g_fires(g, a, cc, tg)
+    ensures g_fires(g, b, cc, tg)
 {
-    reveal(fires); reveal(same_closure);
+    reveal(g_fires); reveal(same_closure);
     let s = choose|s: int| (g.reach)(a, s) && #[trigger] (g.tr)(s, cc, tg);
     assert((g.reach)(b, s) && (g.tr)(s, cc, tg));
 }
@@ -30,7 +30,7 @@ pub proof fn lemma_lands_ok(g: Gr, cls: ClsF, w: Seq<char>, t: int)
     if w.len() > 0 {
         let m = choose|m: int| g_lands(g, cls, w.drop_last(), m) && #[trigger] g_step(g, cls, m, w.last(), t);
         lemma_lands_ok(g, cls, w.drop_last(), m);
-        let (cc, tg) = choose|cc: CharClassID, tg: StateID| #[trigger] fires(g, m, cc, tg) && cls(cc, w.last()) && tg.0 == t;
+        let (cc, tg) = choose|cc: CharClassID, tg: StateID| #[trigger] g_fires(g, m, cc, tg) && cls(cc, w.last()) && tg.0 == t;
         lemma_fires_target(g, m, cc, tg);
     }
 }
@@ -52,7 +52,7 @@ pub proof fn lemma_elim_sound(g: Gr, d: CompiledDfa, reps: Seq<StateID>, cls: Cl
         let t0 = choose|t0: int| #[trigger] g_lands(g, cls, w.drop_last(), t0) && same_closure(g, t0, reps[s].0 as int);
         let cc = choose|cc: CharClassID| #[trigger] d.states@[s].transitions@.contains((cc, StateSetID(i as u32))) && cls(cc, w.last());
         assert(elim_edge(g, reps, s, cc, StateSetID(i as u32)));
-        let tg = choose|tg: StateID| #[trigger] fires(g, reps[s].0 as int, cc, tg) && same_closure(g, tg.0 as int, reps[i].0 as int);
+        let tg = choose|tg: StateID| #[trigger] g_fires(g, reps[s].0 as int, cc, tg) && same_closure(g, tg.0 as int, reps[i].0 as int);
         lemma_same_closure_sym(g, t0, reps[s].0 as int);
         lemma_fires_same(g, reps[s].0 as int, t0, cc, tg);
         assert(g_step(g, cls, t0, w.last(), tg.0 as int));
@@ -73,7 +73,7 @@ pub proof fn lemma_elim_complete(g: Gr, d: CompiledDfa, reps: Seq<StateID>, cls:
         let m = choose|m: int| g_lands(g, cls, w.drop_last(), m) && #[trigger] g_step(g, cls, m, w.last(), t);
         lemma_elim_complete(g, d, reps, cls, w.drop_last(), m);
         let s = choose|s: int| 0 <= s < reps.len() && #[trigger] d_reach(d, cls, w.drop_last(), s) && same_closure(g, m, reps[s].0 as int);
-        let (cc, tg) = choose|cc: CharClassID, tg: StateID| #[trigger] fires(g, m, cc, tg) && cls(cc, w.last()) && tg.0 == t;
+        let (cc, tg) = choose|cc: CharClassID, tg: StateID| #[trigger] g_fires(g, m, cc, tg) && cls(cc, w.last()) && tg.0 == t;
         lemma_fires_same(g, m, reps[s].0 as int, cc, tg);
         assert(has_rep(g, reps, tg));
         let to = choose|to: StateSetID| to.0 < reps.len() && #[trigger] same_closure(g, tg.0 as int, reps[to.0 as int].0 as int);
